@@ -11,15 +11,38 @@
 (* Templates:  <<"atom", v>>          a literal datum (int, symbol, string) *)
 (*             <<"unq", name>>        ~name                                 *)
 (*             <<"unqsum", a, b>>     ~(+ a b)   an unquoted compound form  *)
+(*             <<"unqx", e>>          ~e   an unquoted expression e (below) *)
 (*             <<"splice", name>>     ~@name                                *)
+(*             <<"splicex", e>>       ~@e                                   *)
 (*             <<"list", <<T..>>>>    (T ..)                                *)
 (*             <<"arr", <<T..>>>>     [T ..]                                *)
 (*             <<"hashform", <<T..>>>> {k v ..}  which the reader turns    *)
 (*                                    into the form (hash k v ..)           *)
+(*             <<"hashobj", <<T..>>>> a hash OBJECT standing in the         *)
+(*                                    template (a template that was built   *)
+(*                                    as a value): its keys and values in   *)
+(*                                    order k1 v1 k2 v2 ..                  *)
+(*             <<"sugar", h, T>>      %T (h = "quote") or ^T (h =           *)
+(*                                    "syntaxQuote") inside a template: the *)
+(*                                    reader's way of writing (h T)         *)
+(* Expressions of ~e and ~@e (pure, so their value is all that matters):    *)
+(*             <<"lit", v>>           a number or string literal            *)
+(*             <<"qt", v>>            (quote v)                             *)
+(*             <<"var", name>>        a bound name                          *)
+(*             <<"sum", e1, e2>>      (+ e1 e2)                             *)
+(*             <<"begin", <<e..>>>>   (begin e ..): the value of the last   *)
+(*                                    expression, nil when there is none    *)
+(*             <<"scope", <<e..>>>>   (newScope e ..): likewise             *)
+(*             <<"mklist", <<e..>>>>  (list e ..)                           *)
+(*             <<"bad", label>>       an expression that has no value: it   *)
+(*                                    is rejected when written on its own   *)
+(*                                    (when compiled or when run)           *)
 (* Values are the harness projection: <<"int",n>> <<"sym",s>> <<"str",s>>   *)
-(* <<"nil">> (the empty list) <<"list",<<..>>>> <<"arr",<<..>>>>.           *)
-(* Subst is the independent substitution function; Err marks a splice of   *)
-(* something that is not a list.                                            *)
+(* <<"nil">> (the empty list) <<"list",<<..>>>> <<"arr",<<..>>>>            *)
+(* <<"hash", "hash", << <<k, v>> .. >>>>.                                   *)
+(* Subst is the independent substitution function; Err marks a template    *)
+(* that has no value: a splice of something that is not a list, an unquote *)
+(* of an expression that has no value, a hash with a dangling key.         *)
 (***************************************************************************)
 EXTENDS Integers, Sequences, TLC
 
@@ -28,31 +51,60 @@ Err == <<"err">>
 MkList(s) == IF Len(s) = 0 THEN Nil ELSE <<"list", s>>
 
 IsErr(v) == v = Err
+AnyErr(s) == \E i \in 1..Len(s) : IsErr(s[i])
+
+(* ---- the value of an unquoted expression ---- *)
+RECURSIVE Eval(_, _), EvalSeq(_, _, _)
+EvalSeq(es, i, B) == IF i > Len(es) THEN <<>> ELSE <<Eval(es[i], B)>> \o EvalSeq(es, i + 1, B)
+Eval(e, B) ==
+    CASE e[1] \in {"lit", "qt"} -> e[2]
+      [] e[1] = "var" -> B[e[2]]
+      [] e[1] = "sum" -> LET a == Eval(e[2], B)
+                             b == Eval(e[3], B)
+                         IN IF a[1] = "int" /\ b[1] = "int" THEN <<"int", a[2] + b[2]>> ELSE Err
+      [] e[1] \in {"begin", "scope"} -> LET s == EvalSeq(e[2], 1, B) IN
+                                        IF AnyErr(s) THEN Err ELSE IF Len(s) = 0 THEN Nil ELSE s[Len(s)]
+      [] e[1] = "mklist" -> LET s == EvalSeq(e[2], 1, B) IN IF AnyErr(s) THEN Err ELSE MkList(s)
+      [] OTHER -> Err                       \* "bad": no value
+
+(* the elements a spliced value contributes: only lists can be spliced *)
+Spliced(v) == IF v = Nil THEN <<>>
+              ELSE IF v[1] = "list" THEN v[2]
+              ELSE <<Err>>
+
+(* ---- a hash built from the sequence k1 v1 k2 v2 ..: insertion order, a repeated key keeps its place ---- *)
+KeyKinds == {"int", "sym", "str"}
+SameKey(a, b) == a[1] = b[1] /\ a = b
+PutPair(acc, k, v) == IF \E j \in 1..Len(acc) : SameKey(acc[j][1], k)
+                      THEN [j \in 1..Len(acc) |-> IF SameKey(acc[j][1], k) THEN <<k, v>> ELSE acc[j]]
+                      ELSE Append(acc, <<k, v>>)
+RECURSIVE HashIns(_, _, _)
+HashIns(s, i, acc) == IF i > Len(s) THEN acc ELSE HashIns(s, i + 2, PutPair(acc, s[i], s[i + 1]))
+MkHash(s) == IF Len(s) % 2 = 1 \/ (\E i \in 1..Len(s) : i % 2 = 1 /\ s[i][1] \notin KeyKinds) THEN Err
+             ELSE <<"hash", "hash", HashIns(s, 1, <<>>)>>
 
 RECURSIVE Subst(_, _), SubstSeq(_, _, _)
 
 (* the elements a template contributes to its enclosing sequence *)
 Contribution(t, B) ==
-    IF t[1] = "splice"
-    THEN LET v == B[t[2]] IN
-         IF v = Nil THEN <<>>
-         ELSE IF v[1] = "list" THEN v[2]
-         ELSE <<Err>>                      \* only lists can be spliced
-    ELSE <<Subst(t, B)>>
+    CASE t[1] = "splice" -> Spliced(B[t[2]])
+      [] t[1] = "splicex" -> Spliced(Eval(t[2], B))
+      [] OTHER -> <<Subst(t, B)>>
 
 SubstSeq(ts, i, B) ==
     IF i > Len(ts) THEN <<>> ELSE Contribution(ts[i], B) \o SubstSeq(ts, i + 1, B)
-
-AnyErr(s) == \E i \in 1..Len(s) : IsErr(s[i])
 
 Subst(t, B) ==
     CASE t[1] = "atom" -> t[2]
       [] t[1] = "unq" -> B[t[2]]
       [] t[1] = "unqsum" -> <<"int", t[2] + t[3]>>
+      [] t[1] = "unqx" -> Eval(t[2], B)
       [] t[1] = "list" -> LET s == SubstSeq(t[2], 1, B) IN IF AnyErr(s) THEN Err ELSE MkList(s)
       [] t[1] = "arr" -> LET s == SubstSeq(t[2], 1, B) IN IF AnyErr(s) THEN Err ELSE <<"arr", s>>
       [] t[1] = "hashform" -> LET s == SubstSeq(t[2], 1, B) IN
                               IF AnyErr(s) THEN Err ELSE <<"list", << <<"sym", "hash">> >> \o s>>
+      [] t[1] = "hashobj" -> LET s == SubstSeq(t[2], 1, B) IN IF AnyErr(s) THEN Err ELSE MkHash(s)
+      [] t[1] = "sugar" -> Subst(<<"list", << <<"atom", <<"sym", t[2]>>>>, t[3] >> >>, B)
       [] OTHER -> Err
 
 (* ---- laws of substitution, model-checked over all small templates (MCQuasi) ---- *)
